@@ -3,6 +3,7 @@
 PROP_MODULES = {
     'C03': ['contracts.builders', 'contracts.shared_grid', 'contracts.c03_grid'],
     'C04': ['contracts.builders', 'contracts.shared_grid', 'contracts.c03_grid', 'contracts.c04_meta', 'contracts.c08_creator'],
+    'C13': ['contracts.builders', 'contracts.shared_grid', 'contracts.c03_grid', 'contracts.c04_meta', 'contracts.c08_creator', 'contracts.c13_expiry'],
     'C08': ['contracts.builders', 'contracts.shared_grid', 'contracts.c03_grid', 'contracts.c04_meta', 'contracts.c08_creator'],
 }
 
@@ -28,6 +29,33 @@ NOT_APPLICABLE = {
 }
 
 MANIFEST_META = {
+    'C04': dict(
+        text='Proof of the meta-tile geometry on the real MetaGrid code for all grids / meta sizes / buffers / tiles: '
+             'meta size never exceeds the level grid, main tile arithmetic (idempotence lemma), tile lists row by row '
+             'from the top with None outside the grid, the crop pattern is a regular lattice (tile width/height, '
+             'left/top buffer), the buffered bbox is the unbuffered block -/+ buffer or the grid edge with the pixel '
+             'buffer within one pixel, and entry 0 sits at its ground position exactly when the buffer is not cut off '
+             '(lemmas pattern_placement_x/y extend this to every entry). Trace conditions on '
+             'TileCreator._create_meta_tile: one upstream request per meta tile, split tiles stored under the lock.',
+        note='floats as reals; PIL crop/paste pixel semantics and the upstream being position-determined are outside; '
+             'TileSplitter.get_tile / split_meta_tiles / minimal_meta_tile / bulk creation not yet under contract; '
+             'opaque-callee assumption for trace conditions (an opaque callee does not itself perform the guarded event)'),
+    'C08': dict(
+        text='Proof of the per-thread protocol obligations on the real TileCreator code (all paths, all inputs): the lock '
+             'taken is the one of the meta tile\'s main tile (main_tile idempotence lemma), the upstream is queried only '
+             'while that lock is held and only after a cache re-check of all tiles made under the same lock, at most one '
+             'upstream request per invocation, results stored before the lock is released. The interleaving conclusion '
+             '(one fetch per meta tile across threads) is a pen-and-paper lemma conditional on lock exclusivity (C07).',
+        note='no interleavings are explored (exclusivity of FileLock is assumed, C07 not applicable); opaque-callee '
+             'assumption; _create_bulk_meta_tile and lock file naming not yet under contract'),
+    'C13': dict(
+        text='Proof on the real TileManager code: is_cached is the backend answer restricted by the threshold (stale at '
+             'or before the threshold, fresh after it -- outside known finding S10), is_stale <=> exists and not fresh, '
+             'a refresh rule takes precedence and is re-evaluated on every call (frame: nothing cached in the manager), '
+             'a fresh tile causes no upstream request, a failed refresh stores/removes nothing; file-cache metadata comes '
+             'from lstat of the tile\'s own location.',
+        note='wall-clock functions (mktime, time zones), sqlite timestamp resolution and the seed-task path are outside; '
+             'timestamps assumed non-negative; known finding S10 (sub-second window)'),
     'C03': dict(
         text='Proof (all grids, all levels, all coordinates, no bound) that the real grid.py functions meet contracts '
              'taken from the property text: tile() contains its point, tile_bbox edges are the exact affine edges '
